@@ -47,6 +47,9 @@ pub struct SkCase {
     pub sk: SkSpec,
     /// overwrite rho, K, tr and the t0 area with uniform bytes from this seed
     pub random_rest: Option<u64>,
+    /// fill one header field with a constant byte: (0 rho, 1 K, 2 tr, 3 all three; byte)
+    #[serde(default)]
+    pub header_fill: Option<(u8, u8)>,
 }
 
 pub fn check_sk(c: &SkCase, st: &mut Stats) -> CheckResult {
@@ -59,6 +62,16 @@ pub fn check_sk(c: &SkCase, st: &mut Stats) -> CheckResult {
         let t0 = p.sk_t0_off();
         b[t0..].copy_from_slice(&r[t0..]);
     }
+    if let Some((which, byte)) = c.header_fill {
+        let range = match which % 4 {
+            0 => 0..32,
+            1 => 32..64,
+            2 => 64..128,
+            _ => 0..128,
+        };
+        b[range].iter_mut().for_each(|x| *x = byte);
+        st.class("header_field_constant_fill");
+    }
     st.eval();
     match g_sk(libr, &b)? {
         Err(_) => {
@@ -67,7 +80,7 @@ pub fn check_sk(c: &SkCase, st: &mut Stats) -> CheckResult {
         }
         Ok(k) => {
             st.class("accepted");
-            if !matches!((&c.sk, c.random_rest), (SkSpec::Generated(_), None)) {
+            if !matches!((&c.sk, c.random_rest, c.header_fill), (SkSpec::Generated(_), None, None)) {
                 st.nontrivial(c);
             }
             st.sample(&format!("set{}", p.id), || json!({"set": p.id, "sk_spec": format!("{:?}", c.sk), "random_rest": c.random_rest.is_some()}));
@@ -156,13 +169,16 @@ pub fn check_behaviour(c: &BehaviourCase, st: &mut Stats) -> CheckResult {
 
 pub fn run(ctx: &Ctx, rep: &mut Report) {
     rep.assume(ASSUME_REF);
-    run_generated(ctx, rep, "pk_roundtrip", ctx.n(30_000, 600_000), || (0u8..3, gen::pk_spec()).prop_map(|(set, pk)| PkCase { set, pk }), check_pk);
+    run_generated(ctx, rep, "pk_roundtrip", ctx.n(100_000, 2_000_000), || (0u8..3, gen::pk_spec()).prop_map(|(set, pk)| PkCase { set, pk }), check_pk);
     run_generated(
         ctx,
         rep,
         "sk_roundtrip",
         ctx.n(30_000, 600_000),
-        || (0u8..3, gen::sk_spec(), proptest::option::of(any::<u64>())).prop_map(|(set, sk, random_rest)| SkCase { set, sk, random_rest }),
+        || {
+            let fill = proptest::option::weighted(0.3, (0u8..4, prop_oneof![Just(0u8), Just(0xFFu8), any::<u8>()]));
+            (0u8..3, gen::sk_spec(), proptest::option::of(any::<u64>()), fill).prop_map(|(set, sk, random_rest, header_fill)| SkCase { set, sk, random_rest, header_fill })
+        },
         check_sk,
     );
     run_generated(
